@@ -139,7 +139,18 @@ def run(ctx):
         any(t.op == "is_variant" for t, rel, v in fs)
     ctx.add("C17.R3", root + "#some-requires-recovery-ok", okn, "Some(..) must require that share_recover returned Ok", at)
     okc = any(t.op == "b64_valid" and rel == "eq" and v == 1 for t, rel, v in fs)
-    ctx.add("C17.R3", root + "#some-requires-decodable-chunks", okc, "Some(..) must require every chunk to be valid base64 (and a valid share)", at)
+    if not okc:
+        # loop form: every stored share was decoded from a valid chunk, and an invalid chunk returns None
+        pushes = [e for e in Q.calls(eng, "::push") if e["frame"] == fr.key]
+        okpush = bool(pushes) and all(any(t.op == "b64_valid" and rel == "eq" and v == 1 for t, rel, v in Q.closure(eng, eng.facts_at(e["frame"], e["block"])))
+                                      for e in pushes)
+        none = Q.variant(ret, 0)
+        oknone = False
+        for (fk, b) in (none[4] if none else ()):
+            if any(t.op == "b64_valid" and rel == "eq" and v == 0 for t, rel, v in Q.closure(eng, eng.facts_at(fk, b))):
+                oknone = True
+        okc = okpush and oknone
+    ctx.add("C17.R3", root + "#some-requires-decodable-chunks", okc, "Some(..) must require every chunk to be valid base64 (and a valid share): an undecodable chunk must lead to None", at)
     ctx.floor("C17.R3", 2)
     # ---- R5: the core recovery the wrapper delegates to counts distinct shares correctly (C01.R4 re-run) --------
     from . import c01
